@@ -181,7 +181,13 @@ var ghostRecNext func(d []byte, o int) int
 //@   ensures t.searchIndex.itemsWritten == old(t.searchIndex.itemsWritten) + 1
 //@   ensures old(t.searchIndex.itemsWritten)%16 == 0 ==> len(t.searchIndex.offsets) == old(len(t.searchIndex.offsets)) + 1 && int64(t.searchIndex.offsets[old(len(t.searchIndex.offsets))]) == old(t.size)
 //@   ensures bloom.ghostHas(t.filter, entry.Key())
-//@   ensures same(t.endKey, entry.Key()) && t.endSeqNum == entry.SeqNum() && (old(t.size) == 0 ==> same(t.startKey, entry.Key()) && t.startSeqNum == entry.SeqNum())
+//@   ensures same(t.endKey, entry.Key()) && (old(t.size) == 0 ==> same(t.startKey, entry.Key()) && t.startSeqNum == entry.SeqNum())
+// endSeqNum is the HIGHEST sequence number in the table (entries arrive in key order, not in write
+// order): the level list's LatestSeqNum is taken from it, and a restored database continues its
+// numbering there - were it lower than a record in a table, operations replayed after a rescale
+// (which skips the operations of keys no longer owned) would be numbered below the older version
+// in the table and lose every newest-by-sequence-number merge against it.
+//@   ensures t.endSeqNum >= entry.SeqNum() && t.endSeqNum >= old(t.endSeqNum) && (t.endSeqNum == entry.SeqNum() || t.endSeqNum == old(t.endSeqNum))
 
 // The footer (bloom filter, sparse index) is loaded once; the entries region is not touched.
 //@ func Table.ensureMetadataLoaded
